@@ -7,7 +7,8 @@ Require Import Floats.SpecFloat.
 Require Import ZArith Reals List.
 From Flocq Require Import Core BinarySingleNaN.
 From Dasp Require Import Base.Res Base.Float Ring.Fixed Ring.FixedSpec Dsp.Rms Dsp.Sqrt Dsp.RmsInst
-  Dsp.RmsProofs Dsp.RmsIeee.
+  Dsp.RmsProofs Dsp.RmsIeee Dsp.RmsErr Dsp.RmsErrProofs Dsp.SqrtReal Dsp.SqrtProofs Dsp.RmsExamples.
+From Flocq Require Import Calc.Operations.
 From DaspGen Require Import SqrtMagic.
 Import ListNotations.
 
@@ -107,3 +108,43 @@ Print Assumptions c11_magic32_is_one.
 Theorem c11_magic64_is_one : F64.bits F64.one = magic64 /\ shift64 = 1%Z.
 Proof. split; vm_compute; reflexivity. Qed.
 Print Assumptions c11_magic64_is_one.
+
+(* no_std square root (bit trick with the constants of ops.rs): for EVERY normal x >= 0 the result
+   is within 7% of the real square root, and the unsigned addition `to_bits() + MAGIC` does not
+   wrap (no overflow panic in a debug build) *)
+Theorem c11_sqrt_trick_f32 : forall x : f32, normal32 x ->
+  (Rabs (B2R (sqrt_trick32 x) - R_sqrt.sqrt (B2R x)) <= 0.07 * R_sqrt.sqrt (B2R x))%R /\
+  (F32.bits x + magic32 < 2 ^ 32)%Z.
+Proof. exact sqrt_trick32_bound. Qed.
+Print Assumptions c11_sqrt_trick_f32.
+
+Theorem c11_sqrt_trick_f64 : forall x : f64, normal64 x ->
+  (Rabs (B2R (sqrt_trick64 x) - R_sqrt.sqrt (B2R x)) <= 0.07 * R_sqrt.sqrt (B2R x))%R /\
+  (F64.bits x + magic64 < 2 ^ 64)%Z.
+Proof. exact sqrt_trick64_bound. Qed.
+Print Assumptions c11_sqrt_trick_f64.
+
+(* the negligible absolute term at zero: sqrt_trick(+0) = 1.5 * 2^-64 (f32), 1.5 * 2^-512 (f64) *)
+Theorem c11_sqrt_trick_zero :
+  F32.bits (sqrt_trick32 F32.zero) = 532676608%Z /\ F64.bits (sqrt_trick64 F64.zero) = 2303591209400008704%Z.
+Proof. exact sqrt_trick_zero. Qed.
+Print Assumptions c11_sqrt_trick_zero.
+
+(* error bound E (Dsp/RmsErr.v, the tolerance of the correspondence verdict): one step of the
+   executable recurrence is sound for the standard rounding model of the three operations of
+   next_squared (x*x, sum + new, - evicted) followed by the clamp.
+   PARTIAL: missing is the induction along the Flocq run of the model that discharges the five
+   rounding hypotheses with Bmult/Bplus/Bminus_correct + relative_error_N_FLT_ex (no overflow)
+   and ties the evicted float square to the evicted exact square; until then the tolerance of the
+   verdict is argued (by this theorem), not proved end to end. *)
+Theorem c11_drift_bound_partial : forall (u eta S T q r : dy) (s qt rt a d : R),
+  (0 <= F2R u -> 0 <= F2R eta -> 0 <= F2R S -> 0 <= F2R T -> 0 <= F2R q -> 0 <= F2R r ->
+  0 <= F2R (dsub (dadd S q) r) ->
+  Rabs (s - F2R S) <= F2R T ->
+  Rabs (qt - F2R q) <= F2R u * F2R q + F2R eta ->
+  Rabs (rt - F2R r) <= F2R u * F2R r + F2R eta ->
+  Rabs (a - (s + qt)) <= F2R u * Rabs (s + qt) + F2R eta ->
+  Rabs (d - (a - rt)) <= F2R u * Rabs (a - rt) + F2R eta ->
+  Rabs (clampR d - F2R (dsub (dadd S q) r)) <= F2R (e_next u eta S T q r))%R.
+Proof. exact drift_step. Qed.
+Print Assumptions c11_drift_bound_partial.
